@@ -499,14 +499,7 @@ func dfs(res *core.Result, r *rand.Rand, s setup, initSet, retries, budget int) 
 	res.Count("dfs_schedules", int64(count))
 }
 
-func parallel(n int, fn func(w int)) {
-	var wg sync.WaitGroup
-	for w := 0; w < n; w++ {
-		wg.Add(1)
-		go func(w int) { defer wg.Done(); fn(w) }(w)
-	}
-	wg.Wait()
-}
+func parallel(n int, fn func(w int)) { core.Parallel(n, fn) }
 
 func run(c *core.Ctx) {
 	res := c.Res
